@@ -59,6 +59,20 @@ def split_top(s, sep=","):
     return out
 
 
+def rejoin_angle(parts):
+    """operands that are bare function items (`Type::<A, B>::f`) contain commas inside <>: glue the pieces back"""
+    out, cur = [], None
+    for p in parts:
+        cur = p if cur is None else cur + ", " + p
+        t = cur.replace("->", "")
+        if t.count("<") <= t.count(">"):
+            out.append(cur)
+            cur = None
+    if cur is not None:
+        out.append(cur)
+    return out
+
+
 def split_top_angle(s, sep=","):
     """Split a *type list* at top-level commas, also tracking <> (with `->`)."""
     out, depth, i, start = [], 0, 0, 0
@@ -470,7 +484,7 @@ def parse_call(text):
                 j = match_close(text, i)
                 if j == n - 1:
                     func = text[:i].strip()
-                    args = [parse_operand(x) for x in split_top(text[i + 1:j])]
+                    args = [parse_operand(x) for x in rejoin_angle(split_top(text[i + 1:j]))]
                     return func, args
                 i = j + 1
                 continue
